@@ -69,6 +69,24 @@ Definition mi_values (phi : Qc -> Qc) (edges : list Qc) (vals : list Z) (rows : 
   let cnt := fun b c => qz (vhist edges rows b c) in
   if M.q_is0 (a_total Z cnt bs vals) then None else Some (a_mi Z phi cnt bs vals).
 
+(* the same value, organised for evaluation: totals and per-bin terms computed once (Proofs/Classes.v: mi_values_fast_eq) *)
+Definition a_mi_fast (A : Type) (phi : Qc -> Qc) (cnt : nat -> A -> Qc) (bs : list nat) (vs : list A) : Qc :=
+  let tot := a_total A cnt bs vs in
+  let ntot := a_nz tot in
+  let ebs := map (fun b => phi (a_nz (a_cb A cnt vs b / ntot))) bs in
+  qsum (map (fun v =>
+    let cvv := a_cv A cnt bs v in
+    let ncv := a_nz cvv in
+    qsum (map (fun be => phi (a_nz (cnt (fst be) v / ncv)) - snd be) (combine bs ebs)) * (cvv / tot)) vs).
+
+Definition mi_values_fast (phi : Qc -> Qc) (edges : list Qc) (vals : list Z) (rows : list M.row) : option Qc :=
+  let bs := seq 0 (M.nbins edges) in
+  let tags := map (fun r : M.row => (M.bin_spec edges (fst r), snd r)) rows in
+  let cnt := fun b c => qz (Z.of_nat (length (filter (fun t : option nat * Z =>
+                 match fst t with Some b' => Nat.eqb b' b && Z.eqb (snd t) c | None => false end) tags))) in
+  let tot := a_total Z cnt bs vals in
+  if M.q_is0 tot then None else Some (a_mi_fast Z phi cnt bs vals).
+
 (* ================================================================ automatic class set (partitions=None), from the generated constants *)
 Local Open Scope Z_scope.
 
@@ -207,11 +225,12 @@ Definition mvariant_entry (edges lntab : list Qc) (parts : list Z) (bs : list (l
   let nb := M.nbins edges in
   let rows := mia_rows s w bs in
   let vals := nodup Z.eq_dec parts in
-  let spec := mi_values (M.phi_ln lntab) edges vals rows in
-  let model := M.comp (M.phi_ln lntab) nb (length parts) (M.hist_feed edges (M.est_exact edges) parts (mia_batches s w bs)) in
-  (* the public result against the value-keyed SPEC; the impl-model agrees with the spec on this input *)
+  let spec := mi_values_fast (M.phi_ln lntab) edges vals rows in
+  (* the public result against the value-keyed SPEC; the impl-model of C13 agrees with the spec on this input (not evaluated
+     above 64 classes: its formula recomputes the totals for every cell) *)
   fval_matches 0 mia_tol (nth s (nth w res []) PInf) (option_map this spec)
-  && (negb (Nat.eqb (length vals) (length parts)) || oqc_eqb model spec)
+  && (negb (Nat.eqb (length vals) (length parts)) || Nat.ltb 64 (length parts)
+      || oqc_eqb (M.comp (M.phi_ln lntab) nb (length parts) (M.hist_feed edges (M.est_exact edges) parts (mia_batches s w bs))) spec)
   (* the joint histogram, when it was recorded: cell (bin, class k) counts the traces in the bin whose value is parts[k] *)
   && match mv_obs_acc v with
      | [] => true
@@ -255,7 +274,7 @@ Definition cmia_expected (c : cmia_case) : list (list (nat * nat * option Q)) :=
         let W := match concat bs with t :: _ => length (snd t) | [] => O end in
         let S := match concat bs with t :: _ => length (fst t) | [] => O end in
         flat_map (fun s => map (fun w =>
-          (s, w, option_map this (mi_values (M.phi_ln lntab) edges (nodup Z.eq_dec used_parts) (mia_rows s w bs)))) (seq 0 W)) (seq 0 S))
+          (s, w, option_map this (mi_values_fast (M.phi_ln lntab) edges (nodup Z.eq_dec used_parts) (mia_rows s w bs)))) (seq 0 W)) (seq 0 S))
         (cm_variants c)
   | _, _ => []
   end.
